@@ -81,7 +81,7 @@ def judge(c):
     if a is None or "bad" in a:
         return None
     # every lazy operator of the query must have been lowered to the shape the theorems are about
-    ops, sh = qgen.ops_used(c.query), a.get("shapes") or {}
+    ops, sh = qgen.ops_used_live(c.query), a.get("shapes") or {}
     shape_hit = None
     for k, thm in (("or", "or_lazy"), ("and", "and_lazy2"), ("if", "ite_lazy")):
         if sh.get(k, 0) < ops.get(k, 0) and not cgroup.needs_gxx(c):
